@@ -151,6 +151,8 @@ impl<KT: DbMapKeyType> FileDbXxxInner<KT> {
     ) -> Result<()> {
         let mut old_offset = old_offset;
         let mut new_offset = new_offset;
+        #[cfg(feature = "verif_hooks")]
+        crate::verif_hooks::note("relink");
         loop {
             let mut curr = self.htx_file.read_key_piece_offset(hash)?;
             if curr == old_offset {
@@ -166,6 +168,8 @@ impl<KT: DbMapKeyType> FileDbXxxInner<KT> {
                     }
                     old_offset = curr;
                     new_offset = new_piece.offset;
+                    #[cfg(feature = "verif_hooks")]
+                    crate::verif_hooks::note("relink_cascade");
                     break;
                 }
                 curr = piece.bucket_next_offset;
